@@ -510,14 +510,15 @@ class Crate:
 
 
 class Program:
-    def __init__(self, facts_dir, config='default'):
+    def __init__(self, facts_dir, config='default', fallback_dir=None):
         self.crates = {}
         self.config = config
         for pkg, stem in PKGS.items():
             p = os.path.join(facts_dir, stem + '.json')
+            if not os.path.exists(p) and fallback_dir is not None and pkg != 'mla':
+                # crates that the feature configuration does not rebuild are taken from the default configuration
+                p = os.path.join(fallback_dir, stem + '.json')
             if not os.path.exists(p):
-                if config != 'default' and pkg != 'mla':
-                    continue
                 raise MachineryError('fact file missing for package %s (%s)' % (pkg, p))
             with open(p) as f:
                 j = json.load(f)
